@@ -167,6 +167,8 @@ class XorEncodedFile(io.RawIOBase):
 
     def read(self, n=-1):
         data = b""
+        if n == 0:
+            return data
         nonce = self.read_nonce()
         while True:
             chunk = self.fh.read(4)
@@ -177,9 +179,11 @@ class XorEncodedFile(io.RawIOBase):
             nonce = chunk
             if n > 0 and len(data) >= n:
                 break
-        if n == -1:
-            n = None
-        return data[:n]
+        if n > 0 and len(data) > n:
+            # data is decoded in 4-byte words, give back what was not asked for
+            self.fh.seek(n - len(data), io.SEEK_CUR)
+            data = data[:n]
+        return data
 
 
 @catch_sigpipe
